@@ -1346,8 +1346,9 @@ impl Server {
         }));
         
         // Log to AOF for write commands
+        let by_outcome = Self::logged_by_outcome(&command_name, parts);
         if let Some(aof) = &self.aof_engine {
-            if self.is_write_command(&command_name) {
+            if self.is_write_command(&command_name) && !by_outcome {
                 // The script cache is not persistent: EVALSHA is logged as the EVAL of the script
                 // it names (a hash that names none runs nothing, and nothing is logged)
                 let as_eval = if command_name == "EVALSHA" { self.evalsha_as_eval(parts) } else { None };
@@ -1656,6 +1657,18 @@ impl Server {
             _ => Ok(RespFrame::error(format!("ERR unknown command '{}'", command_name))),
         };
         
+        // A command whose effect is random or depends on the clock is logged once it has run, as
+        // the deterministic command it amounted to
+        if by_outcome {
+            if let (Some(aof), Ok(reply)) = (&self.aof_engine, &result) {
+                if let Some(logged) = Self::deterministic_form(&command_name, parts, reply) {
+                    if let Err(e) = aof.append_command(&logged, db) {
+                        eprintln!("Failed to append to AOF: {}", e);
+                    }
+                }
+            }
+        }
+        
         // Auto-save change recording - always enabled (independent of monitoring)
         if self.is_write_command(&command_name) {
             if let Ok(resp) = &result {
@@ -1754,6 +1767,37 @@ impl Server {
     fn record_change(&self) {
         if let Some(monitor) = &self.storage_monitor {
             monitor.record_change();
+        }
+    }
+    
+    /// Commands that do not have the same effect when they are run again: SPOP draws at random,
+    /// XADD with the ID * takes the ID from the clock. They are not logged as they were sent
+    fn logged_by_outcome(command: &str, parts: &[RespFrame]) -> bool {
+        match command {
+            "SPOP" => true,
+            "XADD" => matches!(parts.get(2), Some(RespFrame::BulkString(Some(id))) if id.as_slice() == b"*"),
+            _ => false,
+        }
+    }
+    
+    /// What such a command is logged as, given its reply: SPOP as the SREM of the members it
+    /// returned, XADD with the ID it returned. None if it changed nothing (nil, empty or error reply)
+    fn deterministic_form(command: &str, parts: &[RespFrame], reply: &RespFrame) -> Option<Vec<RespFrame>> {
+        match (command, reply) {
+            ("SPOP", RespFrame::BulkString(Some(_))) => {
+                Some(vec![RespFrame::bulk_string("SREM"), parts[1].clone(), reply.clone()])
+            }
+            ("SPOP", RespFrame::Array(Some(members))) if !members.is_empty() => {
+                let mut logged = vec![RespFrame::bulk_string("SREM"), parts[1].clone()];
+                logged.extend_from_slice(members);
+                Some(logged)
+            }
+            ("XADD", RespFrame::BulkString(Some(_))) => {
+                let mut logged = parts.to_vec();
+                logged[2] = reply.clone();
+                Some(logged)
+            }
+            _ => None,
         }
     }
     
